@@ -264,57 +264,16 @@ def d8_3(ctx):
                     ctx.violation(key, call, f"`{src(call)}` bypasses _stream_read: truncated input is accepted silently", consumer=src(par)[:80] if par is not None else None)
 
 
-@rule(P, "D8.4", "T-PROGRESS", floor=3)
+@rule(P, "D8.4", "T-WITNESS", floor=3)
 def d8_4(ctx):
-    """Unbounded-array loop: only exit is BufferEmptyError from the element decode on the same stream."""
-    arr = ctx.model.cls(f"{DT}:Array.Array")
-    fn = ctx.model.own_method(arr, "_decode_all")
-    if fn is None:
-        ctx.undecided(f"{DT}:Array.Array._decode_all", arr.node, "anchor vanished")
-        return
-    func = fn.node
-    stream_p = func.args.args[1].arg if len(func.args.args) > 1 else None
-    loops = [n for n in walk(func) if isinstance(n, ast.While)]
-    if len(loops) != 1:
-        ctx.undecided(ckey(fn), func, f"expected one while loop, found {len(loops)}")
-        return
-    loop = loops[0]
-    decodes = [c for c in walk(loop) if isinstance(c, ast.Call) and isinstance(c.func, ast.Attribute) and c.func.attr == "decode"]
-    ok_dec = [c for c in decodes if attr_path(c.func.value) in ("cls.element_type",) and c.args and atom_name(c.args[0]) == stream_p]
-    ctx.check(len(ok_dec) == 1 and len(decodes) == 1, ckey(fn, "element-decode"), loop,
-              "each iteration decodes one element from the same stream parameter",
-              "loop does not decode exactly one cls.element_type from the stream parameter per iteration", decodes=[src(c) for c in decodes])
-    # exits of the loop
-    breaks = [n for n in walk(loop) if isinstance(n, ast.Break)]
-    good = True
-    why = []
-    for b in breaks:
-        h = getattr(b, "_parent", None)
-        while h is not None and not isinstance(h, ast.ExceptHandler) and h is not loop:
-            h = getattr(h, "_parent", None)
-        if not isinstance(h, ast.ExceptHandler) or handler_names(h) != ["BufferEmptyError"]:
-            good = False
-            why.append(f"break at line {b.lineno} is not inside `except BufferEmptyError`")
-    const_true = isinstance(loop.test, ast.Constant) and loop.test.value is True
-    if not const_true:
-        why.append(f"loop condition is `{src(loop.test)}`, not an unconditional loop")
-        good = False
-    if not breaks:
-        good = False
-        why.append("no break on BufferEmptyError: loop cannot end normally")
-    # the handler must catch BufferEmptyError only (catching DataError would hide malformed elements)
-    for h in [n for n in walk(loop) if isinstance(n, ast.ExceptHandler)]:
-        if handler_names(h) != ["BufferEmptyError"]:
-            good = False
-            why.append(f"handler catches {handler_names(h)}: malformed elements would end the array silently")
-    ctx.check(good, ckey(fn, "exit"), loop, "only loop exit is the BufferEmptyError raised at an element boundary", "; ".join(why) or "bad loop exit")
-    # the decoded element must be appended (not dropped) and returned list is the accumulator
-    appends = [c for c in walk(loop) if isinstance(c, ast.Call) and isinstance(c.func, ast.Attribute) and c.func.attr == "append"]
-    acc = attr_path(appends[0].func.value) if appends else None
-    rets = [n for n in walk(func) if isinstance(n, ast.Return)]
-    ctx.check(bool(appends) and all(r.value is not None and atom_name(r.value) == acc for r in rets) and bool(rets),
-              ckey(fn, "accumulate"), func, "every decoded element is appended and the accumulator is returned",
-              "decoded elements are not all appended to the returned list", accumulator=acc)
+    """Unbounded arrays: elements are decoded from the caller's stream until it is empty at an element boundary - that ends the
+    array and the elements decoded so far are returned; a buffer that ends inside an element is malformed (DataError), never a
+    shorter array; an empty buffer is the empty array.  Decided by folding the generated Array class with element markers of one
+    and two bytes (D8.10: whole number of elements, cut inside an element, empty).  An earlier form required a `break` inside
+    `except BufferEmptyError` within a `while True` and alarmed when the `try` was wrapped around the loop instead."""
+    from .driver import _array_rule
+
+    _array_rule(ctx)
     ctx.assume("zero-width element types cannot be excluded statically for user-built unbounded arrays")
 
 
